@@ -14,6 +14,8 @@ CONSTANTS
   ParamKeys = {"sendDefault", "send", "tax", "burnVeto", "burnPrevote", "burnQuorum", "minDep", "erc20"}
   MaxParamChanges = 2
   Seeded = TRUE
+  Networks = {"main"}
+  Heights0 = {1}
   Defects = {}
 INVARIANT MInv_P
 INVARIANT MInv_Model
